@@ -78,7 +78,7 @@ def main():
     res["checks_fired"] = fired
     res["target_detected"] = prop in fired
     # 5. the registered command against /repo with the patch applied
-    if not new_src:
+    if not new_src and "--norepo" not in sys.argv:
         pf = "/tmp/seed_%s.diff" % sid
         open(pf, "w").write(patch)
         rc, out = sh("git -C /repo status --porcelain", "/repo")
